@@ -7,7 +7,7 @@
 (* Payloads are symbolic: <<class, id>>, class = length class.             *)
 (***************************************************************************)
 EXTENDS UnsignProps, FiniteSets
-CONSTANTS MaxOps, NIns
+CONSTANTS MaxOps, NIns, Vers
 
 \* payload classes: 0 empty, 1 short (1..75), 2 medium (76..255), 3 long (256..65535)
 ModelLen(d) == CASE d[1] = 0 -> 0 [] d[1] = 1 -> 1 [] d[1] = 2 -> 76 [] d[1] = 3 -> 256
@@ -20,7 +20,7 @@ Ops == Pushes \cup {Op0, [k |-> "small", d |-> <<5>>, e |-> "-"], [k |-> "neg1",
                     [k |-> "opcode", d |-> <<172>>, e |-> "-"]}
 Scripts == UNION {[1..n -> Ops] : n \in 1..MaxOps}
 Ins == [prev : {<<1>>, <<2>>}, ops : Scripts, seq : {<<9>>}]
-Txs == [ver : {1, 2}, ins : [1..NIns -> Ins], outs : {<<3>>}, lock : {<<4>>}]
+Txs == [ver : Vers, ins : [1..NIns -> Ins], outs : {<<3>>}, lock : {<<4>>}]
 
 VARIABLES tx, tx2
 vars == <<tx, tx2>>
